@@ -28,6 +28,12 @@ CLS = "skmatter.sample_selection.DirectionalConvexHull"
 
 
 def check(ctx):
+    # positional parameters keep their documented positions (a reordering survives every keyword call)
+    from ..sigrules import signatures as _signatures
+
+    _signatures(ctx, "R-SIG", classes=('skmatter.sample_selection.DirectionalConvexHull',))
+    # scoring leaves the fitted hull as it is and hands out fresh arrays (no result buffer kept on the estimator)
+    protocols.reader_state_obligations(ctx, "R-STATE", "sample.DirectionalConvexHull", ctx.P.cls("skmatter.sample_selection.DirectionalConvexHull"))
     P = ctx.P
     N = ctx.normalizer()
     cls = P.cls(CLS)
